@@ -27,6 +27,13 @@ PLANNED = {
 }
 
 CLAIMS = {
+ 'C03': {
+  'engine': 'recsim',
+  'technique': 'deterministic simulation with fault injection: generated recursive programs run through the real compiler, Concertina and SQLite under seeded execution schedules (stale generation tables, aborted/failed then re-run, several predicates at once); oracle = Jacobi T^(depth+1) and least fixpoint from an independent reference evaluator',
+  'text': 'Seeded search over recursive programs x depths (both sides of the 20/21 switch to iterative execution) x execution schedules and fault positions; a clean batch is evidence over the sampled cases, not a proof. For depth <= 20 the result is a single SQL statement and the check is seeded differential testing against the reference model with no fault dimension; the simulation proper (stateful multi-step execution, persistent leftovers, engine faults) applies to iterative plans.',
+  'note': 'Trusted: lsim/ref.py (bag-semantics evaluator written from docs/learn/logica.md), SQLite, the statement-boundary crash model. Vertically unfolded mutual recursion is checked by containment only, as the property states.',
+  'design_ref': 'DESIGN.md section 5 (C03)',
+ },
  'C14': {
   'engine': 'concsim',
   'technique': 'deterministic simulation: real Concertina/ExecuteLogicaProgram under a simulated engine, file system and clock; seeded plans with enumerated stop-signal instants and engine-error positions; constraint oracle plus a cyclic-queue reference model',
